@@ -187,8 +187,13 @@ class ZbossNcpProtocol(asyncio.Protocol):
 
                 if signature_idx < 0:
                     # If we don't have a signature in the buffer,
-                    # drop everything
+                    # drop everything but a trailing first signature byte:
+                    # the signature may be split across two reads
+                    first_byte = Frame.signature.serialize()[:1]
+                    keep = self._buffer.endswith(first_byte)
                     self._buffer.clear()
+                    if keep:
+                        self._buffer += first_byte
                 else:
                     del self._buffer[:signature_idx]
 
